@@ -28,12 +28,15 @@ type c46Op struct {
 }
 
 type c46Case struct {
-	Cfg      verifsim.Config `json:"cfg"`
-	NPeers   int             `json:"npeers"`
-	Control  []c46Op         `json:"control"`
-	Env      []c46Op         `json:"env"`
-	Outcomes []string        `json:"outcomes"` // per Connect call: fail ok ok-drop ; exhausted => fail
-	SettleFailures int       `json:"settle_failures"` // how many maximal back-offs the settle phase covers
+	Cfg     verifsim.Config `json:"cfg"`
+	NPeers  int             `json:"npeers"`
+	Control []c46Op         `json:"control"`
+	// Control2 is a second lifecycle task (start / stop / sleep only), so that Start
+	// and Stop calls can overlap each other and the first task's add / remove
+	Control2       []c46Op  `json:"control2,omitempty"`
+	Env            []c46Op  `json:"env"`
+	Outcomes       []string `json:"outcomes"`        // per Connect call: fail ok ok-drop ; exhausted => fail
+	SettleFailures int      `json:"settle_failures"` // how many maximal back-offs the settle phase covers
 }
 
 func c46Gen(t *rapid.T, tier string) any {
@@ -62,6 +65,16 @@ func c46Gen(t *rapid.T, tier string) any {
 	}
 	c.Control = rapid.SliceOfN(ctl, 1, maxOps).Draw(t, "control")
 	c.Env = rapid.SliceOfN(env, 0, maxOps).Draw(t, "env")
+	if rapid.IntRange(0, 2).Draw(t, "withctl2") == 0 {
+		ctl2 := rapid.Custom(func(t *rapid.T) c46Op {
+			op := c46Op{Kind: rapid.SampledFrom([]string{"start", "stop", "stop", "sleep"}).Draw(t, "k2")}
+			if op.Kind == "sleep" {
+				op.DurMS = rapid.SampledFrom(durs).Draw(t, "d2")
+			}
+			return op
+		})
+		c.Control2 = rapid.SliceOfN(ctl2, 1, 4).Draw(t, "control2")
+	}
 	c.Outcomes = rapid.SliceOfN(rapid.SampledFrom([]string{"fail", "fail", "ok", "ok-drop"}), 0, 10).Draw(t, "outcomes")
 	c.SettleFailures = rapid.SampledFrom([]int{2, 2, 6, 20}).Draw(t, "settle")
 	if tier == "thorough" {
@@ -113,9 +126,9 @@ func (h *c46Host) idx(p peer.ID) int {
 	return -1
 }
 
-func (h *c46Host) Network() network.Network     { return h.net }
+func (h *c46Host) Network() network.Network         { return h.net }
 func (h *c46Host) ConnManager() connmgr.ConnManager { return connmgr.NullConnMgr{} }
-func (h *c46Host) ID() peer.ID                  { return peer.ID("self") }
+func (h *c46Host) ID() peer.ID                      { return peer.ID("self") }
 
 func (h *c46Host) notify(p peer.ID, connected bool) {
 	for _, n := range append([]network.Notifiee(nil), h.notifees...) {
@@ -175,8 +188,13 @@ func (n *c46Net) Connectedness(p peer.ID) network.Connectedness {
 	return network.NotConnected
 }
 
-func (n *c46Net) Notify(nf network.Notifiee) { n.h.notifees = append(n.h.notifees, nf) }
+func (n *c46Net) Notify(nf network.Notifiee) {
+	n.h.s.Yield("net.notify")
+	n.h.notifees = append(n.h.notifees, nf)
+}
 func (n *c46Net) StopNotify(nf network.Notifiee) {
+	n.h.s.Yield("net.stopnotify")
+	defer n.h.s.Yield("net.stopnotify.done")
 	for i, x := range n.h.notifees {
 		if x == nf {
 			n.h.notifees = append(n.h.notifees[:i:i], n.h.notifees[i+1:]...)
@@ -198,8 +216,8 @@ func c46Run(t *testing.T, ci any, trace bool) *verifsim.Result {
 		// model of what should be going on
 		registered := map[int]bool{}
 		running, stopped := false, false
-		allowance := map[int]int{}   // cancelled-context Connect calls still tolerated per peer
-		stopSeq := map[int]int64{}   // event seq after which a live Connect for the peer is a violation (0 = none)
+		allowance := map[int]int{} // cancelled-context Connect calls still tolerated per peer
+		stopSeq := map[int]int64{} // event seq after which a live Connect for the peer is a violation (0 = none)
 		checked := 0
 		checkAttempts := func() {
 			for ; checked < len(h.attempts); checked++ {
@@ -231,49 +249,58 @@ func c46Run(t *testing.T, ci any, trace bool) *verifsim.Result {
 			}
 		})
 
-		s.Go("control", func() {
-			for _, op := range c.Control {
-				s.Logf("ctl %s p%d %dms", op.Kind, op.Peer, op.DurMS)
-				switch op.Kind {
-				case "add":
-					ps.AddPeer(peer.AddrInfo{ID: h.ids[op.Peer]})
-					if !registered[op.Peer] {
-						registered[op.Peer] = true
+		control := func(name string, ops []c46Op) func() {
+			return func() {
+				for _, op := range ops {
+					s.Logf("%s %s p%d %dms", name, op.Kind, op.Peer, op.DurMS)
+					switch op.Kind {
+					case "add":
+						ps.AddPeer(peer.AddrInfo{ID: h.ids[op.Peer]})
+						if !registered[op.Peer] {
+							registered[op.Peer] = true
+							if !stopped {
+								stopSeq[op.Peer] = 0
+							} else if stopSeq[op.Peer] == 0 {
+								// added to a stopped service: no dial with a live context, ever
+								stopSeq[op.Peer] = s.Seq()
+							}
+						}
+					case "remove":
+						ps.RemovePeer(h.ids[op.Peer])
+						if registered[op.Peer] {
+							registered[op.Peer] = false
+							stopSeq[op.Peer] = s.Seq()
+							allowance[op.Peer]++
+						}
+					case "start":
+						err := ps.Start()
+						if err == nil && !stopped {
+							running = true
+						}
+					case "stop":
+						ps.Stop()
 						if !stopped {
-							stopSeq[op.Peer] = 0
-						}
-					}
-				case "remove":
-					ps.RemovePeer(h.ids[op.Peer])
-					if registered[op.Peer] {
-						registered[op.Peer] = false
-						stopSeq[op.Peer] = s.Seq()
-						allowance[op.Peer]++
-					}
-				case "start":
-					err := ps.Start()
-					if err == nil && !stopped {
-						running = true
-					}
-				case "stop":
-					ps.Stop()
-					if !stopped {
-						stopped, running = true, false
-						q := s.Seq()
-						for i := 0; i < c.NPeers; i++ {
-							if registered[i] {
-								allowance[i]++
-							}
-							if stopSeq[i] == 0 {
-								stopSeq[i] = q
+							stopped, running = true, false
+							q := s.Seq()
+							for i := 0; i < c.NPeers; i++ {
+								if registered[i] {
+									allowance[i]++
+								}
+								if stopSeq[i] == 0 {
+									stopSeq[i] = q
+								}
 							}
 						}
+					case "sleep":
+						time.Sleep(time.Duration(op.DurMS) * time.Millisecond)
 					}
-				case "sleep":
-					time.Sleep(time.Duration(op.DurMS) * time.Millisecond)
 				}
 			}
-		})
+		}
+		s.Go("control", control("ctl", c.Control))
+		if len(c.Control2) > 0 {
+			s.Go("control2", control("ctl2", c.Control2))
+		}
 		s.Go("env", func() {
 			for _, op := range c.Env {
 				s.Logf("env %s p%d %dms", op.Kind, op.Peer, op.DurMS)
